@@ -37,8 +37,11 @@ impl TraitCodegen<'_> {
     ) -> syn::Result<TokenStream> {
         let span = trait_ident.span();
 
+        // The mock attributes are spanned like the trait's name, not like the option that asks for them:
+        // the mock macros resolve `self` with the hygiene of their attribute, and the option may have been
+        // passed into a `macro_rules!` macro whose body holds the item.
         let opt_unimock_attr = match self.opts.default_option(self.opts.unimock, false) {
-            SpanOpt(true, span) => Some(attributes::ExportGatedAttr {
+            SpanOpt(true, _) => Some(attributes::ExportGatedAttr {
                 params: attributes::UnimockAttrParams {
                     trait_ident,
                     mock_api: self.opts.mock_api.as_ref(),
@@ -63,7 +66,7 @@ impl TraitCodegen<'_> {
         };
 
         let opt_mockall_automock_attr = match self.opts.default_option(self.opts.mockall, false) {
-            SpanOpt(true, span) => Some(attributes::ExportGatedAttr {
+            SpanOpt(true, _) => Some(attributes::ExportGatedAttr {
                 params: attributes::MockallAutomockParams { span },
                 opts: self.opts,
             }),
